@@ -30,6 +30,7 @@ def begin(eng, random_modules=(), float_modules=(), numpy_facade=True):
             shims.install_random(rnd, [m])
             done.add(m.__name__)
     if eng.symbolic:
+        shims.install_math_shims()
         if numpy_facade:
             shims.install_numpy_facade()
         fdone = _RND.setdefault("fdone", set())
